@@ -52,3 +52,28 @@ def util_cases(rng, tier):
             yield Case("gen.evglue", ["util.match_events", ref, est, w],
                        lambda r=r, e=e, w=w: [[int(a), int(b)] for a, b in U.match_events(r, e, float(w))],
                        tag="gen match_events", info=dict(info, fn="util.match_events"), nontrivial=bool(ref and est))
+
+
+# ----------------------------------------------------------------------------------------
+# the REGENERATED transcription matching functions (driver op gen.trmatch): the hand-model cases of
+# harness/suites/transcription.py re-targeted at the generated definitions (shared by C05 and C04)
+_TRM_OPS = ("match_note_onsets", "match_note_offsets", "match_notes", "onset_precision_recall_f1",
+            "offset_precision_recall_f1", "precision_recall_f1_overlap")
+
+
+def _has_none_pitch(c):
+    return any(isinstance(a, list) and any(x is None for x in a) for a in c.args)
+
+
+def trmatch_cases(rng, tier, shard, nshards, only=None):
+    from suites import transcription as _TRS
+    for key in ("transcription.match_notes", "transcription.match_onsets_offsets", "transcription.prf_overlap",
+                "transcription.onset_offset_prf", "transcription.validate"):
+        for c in _TRS.SUITES[key](rng, tier, shard, nshards):
+            fn = c.op.split(".", 1)[1] if c.op.startswith("transcription.") else None
+            if fn in _TRM_OPS and (only is None or fn in only) and not _has_none_pitch(c):
+                info = dict(c.info, op="gen.trmatch", fn=fn) if isinstance(c.info, dict) else {"op": "gen.trmatch", "fn": fn}
+                yield Case("gen.trmatch", [fn] + list(c.args), c.call, tol=c.tol, tag="gen " + (c.tag or fn), info=info,
+                           nontrivial=c.nontrivial, post=c.post)
+
+
